@@ -181,14 +181,15 @@ impl Monitor for C02 {
                                     let lhs = big(minted) * &d0 / big(s0.max(1));
                                     let grow = if d1 > d0 { &d1 - &d0 } else { BigUint::zero() };
                                     let excess = if lhs > grow { (&lhs - &grow) / &r } else { BigUint::zero() };
-                                    // value, in invariant units, of two smallest units of the other asset
+                                    // value, in invariant units, of eight smallest units of the other asset (the
+                                    // accuracy the swap path actually achieves, S11)
                                     let mut bumped = r0.clone();
-                                    bumped[j] = bumped[j].saturating_add(2);
+                                    bumped[j] = bumped[j].saturating_add(8);
                                     let val = match d_of(pi, &bumped) {
                                         Some(db) if db > d0 => (&db - &d0) / &r + big(1),
                                         _ => unit_j.clone() * 2u32,
                                     };
-                                    if excess <= val.max(unit_j * 2u32) + big(8) {
+                                    if excess <= val.max(unit_j * 8u32) + big(8) {
                                         v.finding = Some("S6-stableswap-output-rounding".into());
                                         v.truncate = false;
                                     }
